@@ -240,9 +240,10 @@ run_table(const struct tspec *s, int ti)
                 x -= nc[r] - 1;
             }
         }
-        for (uint32_t addr = 0; addr <= FAM_MAXADDR; ++addr)
-            for (uint32_t n = 0; addr + n <= FAM_MAXADDR + 1; ++n) {
-                if (!g_thorough && n > 6 && (addr + n) != FAM_MAXADDR + 1 && addr != 0)
+        for (uint32_t rel = 0; rel <= FAM_MAXADDR; ++rel)
+            for (uint32_t n = 0; rel + n <= FAM_MAXADDR + 1; ++n) {
+                const uint32_t addr = fam_origin(s) + rel;
+                if (!g_thorough && n > 6 && (rel + n) != FAM_MAXADDR + 1 && rel != 0)
                     continue; /* quick: long windows only when they touch an end */
                 if (!mc_case("table#%d %s image=%d window=(%u,%u)", ti, tspec_str(s), im, addr, n))
                     continue;
